@@ -1526,8 +1526,10 @@ class PGPKey(Armorable, ParentRef, PGPObject):
             # User ids are kept sorted: those flagged primary first, then by most recent self-signature; an identity
             # whose self-signature the key has since revoked has no say, unless there is no other.
             def retired(uid):
+                # the issuer named in a revocation is a mere claim: only one the key really made retires the identity
                 return any(sig.type == SignatureType.CertRevocation and sig.signer == self.fingerprint.keyid
-                           and not (sig.created < uid.selfsig.created) for sig in uid._signatures)
+                           and not (sig.created < uid.selfsig.created) and self._issued(sig, uid)
+                           for sig in uid._signatures)
 
             certified = [uid for uid in self.userids if uid.selfsig is not None]
             live = [uid for uid in certified if not retired(uid)]
